@@ -4,7 +4,7 @@
 From stdpp Require Import gmap sets.
 From Coq Require Import ZArith.
 From SV Require Import SM.IdMan SM.IdManProofs SM.IdManSpec SM.IdManSpecProofs SM.IdLife SM.IdLifeProofs
-  SM.IdWorld SM.IdWorldProofs SM.IdNode SM.IdNodeProofs Gen.IdSites_gen.
+  SM.IdWorld SM.IdWorldProofs SM.IdNode SM.IdNodeProofs SM.IdFixupHist SM.IdFixupHistProofs SM.IdNest SM.IdNestProofs SM.IdNodeMaps SM.IdNodeMapsProofs SM.IdAllProofs Gen.IdSites_gen.
 Open Scope Z_scope.
 
 (** Release discipline read from the source census (Gen/IdSites_gen.v). *)
@@ -27,6 +27,18 @@ Definition copy_to_dest (k : kind) : bool :=
 (** remove_ent releases the nav-node ID of an entity that keeps its 'nodeid' key. *)
 Definition node_release_on_remove : bool :=
   existsb (λ '(k, s, _), kind_eqb k KNode && match s with SRemoveFromMap => true | _ => false end) release_sites.
+
+(** Round 3: every place that can put a key into an entity's keyvalue dictionary goes through Entity.__setitem__
+    (which registers a 'nodeid' value with the map's node_id manager and stores the ID it was given) or cannot
+    concern the 'nodeid' key.  [node_copy_registers]: the same for the sites on the constructor / copy() path. *)
+Definition keys_writes_registered : bool :=
+  forallb (λ '(_, _, _, ok), ok) keys_write_sites && node_setitem_registers.
+Definition node_copy_registers : bool :=
+  forallb (λ '(_, _, c, ok), match c with KwCtor => ok | _ => true end) keys_write_sites.
+
+(** Round 3: every place that can put a value into the index table of an EntityFixup is one of the modelled
+    operations (constructor's accepting store, __setitem__'s lowest-unused-index store, index-preserving duplicate). *)
+Definition fixup_writes_modelled : bool := forallb (λ '(_, _, _, ok), ok) fixup_write_sites.
 
 (** The allocator scan always terminates (pigeonhole on the used set). *)
 Theorem c08_get_id_total : ∀ d s, is_Some (get_id d s).
@@ -133,13 +145,110 @@ Proof. exact parse_colliding_ids. Qed.
 (** Nav-node IDs ('nodeid' keyvalue): when remove_ent does not release the ID of an entity that keeps the key,
     the node IDs held by existing entities are pairwise distinct and positive after every history of
     construction / parse with any value, key assignment, key deletion, copy, removal, re-adding and destruction
-    — for either shape of add_ent (re-allocating or not) and of the destructor (releasing or not). *)
+    — for either shape of add_ent (re-allocating or not) and of the destructor (releasing or not) — provided
+    (round 3) the keyvalues of a copy enter the new entity through __setitem__. *)
 Theorem c08_node_ids_unique : ∀ es, node_release_on_remove = false →
-  let w := nrun node_realloc_on_add node_release_on_remove node_release_in_del es in
+  node_copy_registers = true →
+  let w := nrun node_realloc_on_add node_release_on_remove node_release_in_del node_copy_registers es in
   NoDup (nids (nents w)) ∧ (∀ i, i ∈ nids (nents w) → 0 < i).
-Proof. intros es ->. exact (node_ids_nodup_pos _ _ es). Qed.
+Proof. intros es -> ->. exact (node_ids_nodup_pos _ _ es). Qed.
 (** The pinned tree's shape (remove_ent releases) is refuted, with and without the re-allocation in add_ent. *)
 Theorem c08_node_release_on_remove_refuted :
-  has_dup (nmap_ids (nents (nrun false true false node_release_on_remove_history))) = true ∧
-  has_dup (nmap_ids (nents (nrun true true false [NCreate (Some 0); NRemove 0; NCreate (Some (-1)); NCreate (Some (-1)); NReAdd 0; NCreate (Some (-1))]))) = true.
+  has_dup (nmap_ids (nents (nrun false true false true node_release_on_remove_history))) = true ∧
+  has_dup (nmap_ids (nents (nrun true true false true [NCreate (Some 0); NRemove 0; NCreate (Some (-1)); NCreate (Some (-1)); NReAdd 0; NCreate (Some (-1))]))) = true.
 Proof. exact node_release_on_remove_refuted. Qed.
+(** Round 3: the second hypothesis is necessary.  A copy that takes the key dictionary of its source over without
+    __setitem__ shares the node ID of its source; and once such a copy is dropped its destructor releases the ID
+    the source still holds, so a later node receives it again. *)
+Theorem c08_node_copy_unregistered_refuted :
+  nids (nents (nrun false false true false [NCreate (Some 1); NCopy 0])) = [1; 1] ∧
+  nids (nents (nrun false false true false
+                 [NCreate (Some (-1)); NCopy 0; NRemove 1; NGc 1; NCreate (Some (-1))])) = [1; 1].
+Proof. exact node_copy_unregistered_refuted. Qed.
+
+(** Round 3.  replaceNN indexes over whole histories: after the constructor on ANY list (colliding, zero, negative
+    indexes, repeated variables) and EVERY sequence of assignments (also setdefault/update), deletions (also pop),
+    clear(), rebuilds from the table's own values (Entity.copy) and index-preserving duplicates (copy/deepcopy/
+    pickle), the indexes of one entity are pairwise distinct and positive — with the constructor shape read from
+    the source. *)
+Theorem c08_fixup_history : ∀ l ops,
+  fixup_init_requires_positive = true → fixup_init_defers_reinsertion = true →
+  FxInv (fx_hist fixup_init_requires_positive fixup_init_defers_reinsertion l ops).
+Proof. intros l ops -> ->. exact (fx_hist_inv l ops). Qed.
+(** Entity.copy() keeps the numbering: rebuilding a table whose indexes are distinct and positive gives the table. *)
+Theorem c08_fixup_rebuild_keeps_indexes : ∀ f, FxInv f → FxVars f → fx_init true true f = f.
+Proof. exact fx_rebuild_id. Qed.
+(** Both constructor properties are necessary for the history statement. *)
+Theorem c08_fixup_history_needs_positive_test : (fx_hist false true [(7, 0)] [FSet 8; FRebuild]).*2 = [0; 1].
+Proof. exact fx_hist_refuted_without_positive_test. Qed.
+Theorem c08_fixup_history_needs_deferral :
+  (fx_hist true false [(10, 1); (11, 1); (12, 2)] [FDel 10; FSet 13]).*2 = [2; 2; 1].
+Proof. exact fx_hist_refuted_without_deferral. Qed.
+
+(** Round 3.  Entity ⊃ Solid ⊃ Side as ONE world (SM/IdNest.v): an event on a top-level object (point entity, brush
+    entity with its brushes and their faces, world brush) is the whole bundle of constructor / copy() / remove /
+    re-add / destructor calls made for it and its parts.  After EVERY history of such events over any number of
+    maps, in every map the existing entities have pairwise distinct positive IDs, and so have the existing
+    brushes (world brushes and those of entities together) and the existing faces — with the release and copy
+    discipline of the three kinds read from the source.  collapse_one is an event of this world: WHICH objects it copies
+    (the listed world brushes of the instance map in list order, then its listed entities) is computed by the model. *)
+Theorem c08_nested_world_unique : ∀ es m,
+  release_on_remove KEnt = false → release_on_remove KSolid = false → release_on_remove KFace = false →
+  copy_to_dest KEnt = true → copy_to_dest KSolid = true → copy_to_dest KFace = true →
+  let w := trun (release_on_remove KEnt) (release_on_remove KSolid) (release_on_remove KFace)
+                (copy_to_dest KEnt) (copy_to_dest KSolid) (copy_to_dest KFace) es in
+  (NoDup (live_ids_in m (tE w)) ∧ ∀ i, i ∈ live_ids_in m (tE w) → 0 < i) ∧
+  (NoDup (live_ids_in m (tS w)) ∧ ∀ i, i ∈ live_ids_in m (tS w) → 0 < i) ∧
+  (NoDup (live_ids_in m (tF w)) ∧ ∀ i, i ∈ live_ids_in m (tF w) → 0 < i).
+Proof. intros es m -> -> -> -> -> ->. exact (trun_unique es m). Qed.
+(** When Entity.copy() does not pass the map down to its brushes: brushes 1, 2, 2 and faces 1, 2, 2 in one map. *)
+Theorem c08_nested_copy_from_source_refuted :
+  let w := trun false false false true false false nested_copy_history in
+  live_ids_in 1 (tE w) = [1] ∧ live_ids_in 1 (tS w) = [1; 2; 2] ∧ live_ids_in 1 (tF w) = [1; 2; 2].
+Proof. exact nested_copy_from_source_refuted. Qed.
+(** collapse_one (visgroups kept) as one event is the fold of the copy() bundles of the instance map's visible listed
+    brushes, then its listed entities; without visgroups the copies are in addition made visible. *)
+Theorem c08_nested_collapse_is_copies : ∀ r1 r2 r3 c1 c2 c3 w s m, s ≠ m →
+  tstep r1 r2 r3 c1 c2 c3 w (TCollapse s m true) =
+  fold_left (tstep r1 r2 r3 c1 c2 c3) ((λ t, TCopy t m (-1) true) <$> tcollapse_sources w s true) w.
+Proof. exact tcollapse_is_copies. Qed.
+
+(** Round 3.  Nav-node IDs over several maps (SM/IdNodeMaps.v): after every history of construction / parse with any
+    'nodeid' value in any map, key assignment, deletion, removal, re-adding, destruction, copy within and ACROSS maps,
+    reservations by Instance.fixup_key and collapse_one of node entities into another map (copy every entity, then
+    reserve-and-reassign every copied node ID), in every map the node IDs held by existing entities are pairwise
+    distinct and positive — under the same two census premises as c08_node_ids_unique. *)
+Theorem c08_node_maps_ids_unique : ∀ es m, node_release_on_remove = false → node_copy_registers = true →
+  let w := mrun node_realloc_on_add node_release_on_remove node_release_in_del node_copy_registers es in
+  NoDup (nids (nents (mmap w m))) ∧ (∀ i, i ∈ nids (nents (mmap w m)) → 0 < i).
+Proof. intros es m -> ->. exact (node_maps_ids_nodup_pos _ _ es m). Qed.
+(** Without registration a cross-map copy brings the source's ID into a map where it is taken already. *)
+Theorem c08_node_maps_copy_unregistered_refuted :
+  let w := mrun false false true false [MCreate 0 (Some 1); MCreate 1 (Some 1); MCopy 0 1] in
+  nids (nents (mmap w 1)) = [1; 1].
+Proof. exact node_maps_copy_unregistered_refuted. Qed.
+
+(** Round 3.  The property in one statement.  The premises are exactly the census obligations the check discharges on
+    every run: IDs of entities, brushes, faces, brush groups and visgroups are released only by destructors; every
+    copy site allocates in the destination map; remove_ent keeps node IDs and copies register theirs; the fixup
+    constructor tests positivity and defers re-insertion.  Then, for EVERY history of the nested world (entities with
+    their brushes and faces, world brushes; creation with arbitrary desired IDs, copy within and across maps, removal,
+    re-adding, destruction, collapse_one), of brush groups and of visgroups (IdWorld events incl. parse and collapse),
+    of node entities over several maps, and of the fixup table of any one entity: within every map no two existing
+    entities share an ID, no two brushes, no two faces, no two groups, no two visgroups, no two node IDs, no two
+    replaceNN indexes of the entity — and all of them are positive. *)
+Theorem c08_one_map_all_kinds : ∀ hn hg hv hm fl fo m,
+  release_on_remove KEnt = false → release_on_remove KSolid = false → release_on_remove KFace = false →
+  release_on_remove KGroup = false → release_on_remove KVis = false →
+  copy_to_dest KEnt = true → copy_to_dest KSolid = true → copy_to_dest KFace = true →
+  copy_to_dest KGroup = true → copy_to_dest KVis = true →
+  node_release_on_remove = false → node_copy_registers = true →
+  fixup_init_requires_positive = true → fixup_init_defers_reinsertion = true →
+  let wn := trun (release_on_remove KEnt) (release_on_remove KSolid) (release_on_remove KFace)
+                 (copy_to_dest KEnt) (copy_to_dest KSolid) (copy_to_dest KFace) hn in
+  uniq_pos (live_ids_in m (tE wn)) ∧ uniq_pos (live_ids_in m (tS wn)) ∧ uniq_pos (live_ids_in m (tF wn)) ∧
+  uniq_pos (live_ids_in m (wrun (release_on_remove KGroup) (copy_to_dest KGroup) hg)) ∧
+  uniq_pos (live_ids_in m (wrun (release_on_remove KVis) (copy_to_dest KVis) hv)) ∧
+  uniq_pos (nids (nents (mmap (mrun node_realloc_on_add node_release_on_remove node_release_in_del node_copy_registers hm) m))) ∧
+  FxInv (fx_hist fixup_init_requires_positive fixup_init_defers_reinsertion fl fo).
+Proof. intros hn hg hv hm fl fo m -> -> -> -> -> -> -> -> -> -> -> -> -> ->. exact (all_kinds_unique hn hg hv hm fl fo _ _ m). Qed.
